@@ -34,6 +34,16 @@ Theorem C16_send :
 Proof. exact (SendSyncFacts.c16_ok_sound SendClauses.clauses (proj1 (proj2 C16_source_closed))). Qed.
 Print Assumptions C16_send.
 
+(** the futures returned by the async operations ([MRBFuture], which borrow their iterator mutably): Send at most when the iterator
+    is, never Sync - whether derived field-wise (no explicit impl, as in the current source) or decided by an explicit impl header *)
+Theorem C16_futures :
+  c16_fut_ok SendClauses.clauses = true /\
+  forall (t : wty) (conc s y : bool),
+    (fut_send SendClauses.clauses conc s y t = true -> conc = true /\ s = true) /\
+    fut_sync SendClauses.clauses conc s y t = false.
+Proof. assert (H : c16_fut_ok SendClauses.clauses = true) by (vm_compute; reflexivity). split; [exact H | exact (SendSyncFacts.c16_fut_ok_sound SendClauses.clauses H)]. Qed.
+Print Assumptions C16_futures.
+
 (** non-vacuity: iterators of a concurrent buffer over Send items (Sync or not) are Send, in every wrapper *)
 Example C16_not_vacuous : sendable_when_expected SendClauses.clauses = true.
 Proof. vm_compute. reflexivity. Qed.
